@@ -16,10 +16,14 @@ RULE = ("three fixed cases on every run: `tables` (the WHOLE tables: exchange_su
         "with 0-3 kinds and 1-3 index_market_data_subscription_batches calls (80 % subscriptions of defined instruments, else arbitrary: unknown "
         "asset / unknown instrument); 10 % a hand-built DynamicStreams (0-3 exchanges per family, each stream carrying a marker item) under 1-8 "
         "select_* / select_all_* / select_all calls; 10 % StreamBuilder / MultiStreamBuilder: 1-3 builders of the 4 routed kinds, 0-3 subscribe calls "
-        "each over the 15 connectors (15 % without a StreamSelector for the kind: must not compile, reported `nosel`), the first call failing before "
-        "the network in 85 % (an instrument kind the connector rejects, or no subscription), then init; 10 % Map::from_iter with duplicate keys, find, "
+        "each over the 15 connectors (15 % without a StreamSelector for the kind: must not compile, reported `nosel`), EACH call failing before the "
+        "network with probability 30 % (an instrument kind the connector rejects, or no subscription) so that the first failing future is the first, a "
+        "later one or none; 4 %: a builder with 31-33 calls (try_join_all leaves its small mode above 30 futures); then the REAL init is awaited and "
+        "what its first poll returns is compared (Ok | Err + Display | pending on the network); 10 % Map::from_iter with duplicate keys, find, "
         "find_mut. thorough additionally enumerates every list of <= 3 subscriptions over a pool of 6 (valid and invalid, two keys, an unrouted kind) "
-        "as one batch and split into two (343 cases). A case is distinct by the SHA-1 of its op lines and non-trivial when two of its ops produce "
+        "as one batch and split into two (343 cases). corpus/C13V/hand.ops (always run first): the inputs of the sub-check review — a later future failing "
+        "behind one that went to the network (StreamBuilder and MultiStreamBuilder), the 30 / 31 futures boundary of try_join_all, asset numbers from 1000 on "
+        "(names order as strings). A case is distinct by the SHA-1 of its op lines and non-trivial when two of its ops produce "
         "different observations")
 ASSUMPTIONS = [
     "the network is outside the model: a connection init_market_stream would open is a value (exchange, kind, channel family, instruments). "
@@ -35,13 +39,24 @@ ASSUMPTIONS = [
     "that need the order inside a group say `stableSort` explicitly, all others hold for every `UnstableSort`",
     "itertools `sorted_unstable_by_key` in generate_indexed_market_data_subscription_batches: same parameter; IndexedInstruments built by the real "
     "builder are already sorted by exchange (C11), on which the real sort is the identity",
-    "try_join_all polls its futures in order and returns at the first error without polling the rest (futures-util 0.3.34, < 31 futures): "
-    "StreamBuilder::init / MultiStreamBuilder::init are awaited only when the FIRST pushed future fails before the network, decided in the harness "
-    "with the real static `validate`; otherwise both sides print `res network`",
-    "instruments are MarketDataInstrument with asset names a000, a001, ... (string order = numeric order; name normalisation is C11N's), option "
+    "try_join_all (futures-util 0.3.34, a dependency: read, not verified) is modelled by what its FIRST poll returns, given what each future does "
+    "when first polled (fails at once | Ok at once | pending on its connection attempt): with at most 30 futures (`join_all::SMALL`) every future is "
+    "polled once in order and the first Err OF THE PASS is returned, also behind futures that are pending (`joinSmall`); above 30 the futures go to "
+    "FuturesOrdered + try_collect, which consumes results in index order, so the first future that is not Ok at once decides (`joinBig`). Both modes "
+    "and the 30 / 31 boundary were run on the real StreamBuilder::init (corpus/C13V/hand.ops). StreamBuilder::init / MultiStreamBuilder::init are "
+    "really awaited on every sbinit / minit; compared is the result of the first poll, taken while every name lookup is held back (the runtime has one "
+    "blocking thread, occupied by a gate task until the first poll has returned — the gate of C13D), so the compared line does not depend on whether a "
+    "network exists: Ready(Ok) = `res ok`, Ready(Err) = `res err <Display>`, Pending = `res network`. The future is then awaited to its end (offline: "
+    "Err(Socket(\"WebSocket error: ..\")) within a millisecond; guard 5 s) and the ending is printed as a `#` comment, not compared: what the network "
+    "does is outside the model",
+    "instruments are MarketDataInstrument with asset names a000, a001, ..., a999, a1000, ... (`format!(\"a{n:03}\")`); the derived Ord compares the "
+    "NAMES, and so does the model (`strKey`: code points, 0-terminated): numeric order below 1000 (asset_names_below_1000_order_as_numbers — the "
+    "generators stay below 40), string order from 1000 on (a1000 < a999: asset_name_1000_sorts_before_999, corpus case "
+    "asset-names-order-as-strings); name normalisation is C11N's; option "
     "strikes are integer Decimals (Decimal equality is numeric: 50000 and 50000.0 would be one instrument for `dedup`), expiries whole milliseconds "
     "from 2025; the derived Ord of Subscription / MarketDataInstrument / Keyed / MarketInstrumentData is modelled by sort keys (Model/Index.lean "
-    "convention); the generic theorems assume only `InstOps.Lawful` (injective sort key of fixed length), shown for the three concrete instrument types",
+    "convention); the generic theorems assume only `InstOps.Lawful` (injective sort key, no key a proper prefix of another — under which the key order IS "
+    "the tuple order: sort_key_is_tuple_order), shown for the three concrete instrument types",
     "hash-map contents (channel owners, Map) are compared sorted; VecMap / SelectAll order is not observable (markers compared sorted)",
     "IndexedInstruments is `Index.build` of C11 (exchange = declaration position, names = numbers); definitions use the asset's internal name as "
     "its exchange name, so (exchange, internal name) determines the asset: the oracle `specIndexable` (a subscription can be indexed iff some "
@@ -97,17 +112,37 @@ LEVEL_TEXT = ("Sub-check of C13. Lean theorems (lean/BarterModel/Props/C13V.lean
               "duplicate-free set of its subscriptions, independent of order and repetition, validation idempotent. GROUPING (for EVERY function "
               "satisfying the documentation of sort_unstable_by_key): the groups partition the batch, are non-empty, carry one key each, their keys are "
               "the distinct (exchange, kind) pairs ascending without repetition, every subscription lies in exactly one group, each group is a "
-              "permutation of the batch filtered by its key; for the stable sort the order inside a group is the batch's. INIT: succeeds iff all "
-              "subscriptions are supported; the only reachable error is the validation error (Unsupported, UnsupportedSubKind, SubscriptionsEmpty and "
+              "permutation of the batch filtered by its key; for the stable sort the order inside a group is the batch's. INIT (the MODEL of DynamicStreams::init "
+              "UP TO THE NETWORK: `.ok` means validation, channel creation and dispatch passed and lists the connections init_market_stream would be asked "
+              "to open — it is not the real init returning Ok, which also needs every connection to succeed): init_ok_iff_all_supported = this pre-network "
+              "`.ok` iff all subscriptions are supported; the only reachable error is the validation error (Unsupported, UnsupportedSubKind, SubscriptionsEmpty and "
               "the unwrap panic are dead); connections = per batch, per group (init_connections), = the set-level specification for the stable sort "
               "(init_refines_spec); an exchange owns a channel of a family iff a subscription is routed there, iff a connection forwards there "
               "(channel_iff_connection); no connection holds an instrument twice; batches never share a connection and the number of connections per "
               "key is the number of batches holding it; no batch / an empty batch open no connection. Also: select_* / select_all refine `present iff "
-              "built with it and never taken since`; StreamBuilder / MultiStreamBuilder channel sets and the pre-network outcome of init (first call of "
-              "the first non-empty builder decides); generate_indexed_market_data_subscription_batches covers every instrument x kind combination once "
+              "built with it and never taken since` for duplicate-free channel tables (selects_refine_spec; the hypothesis is discharged for every table a "
+              "successful init produces: init_channel_table_nodup, selects_refine_spec_after_init; selects_need_nodup_witness shows it is needed by the "
+              "model's list representation); StreamBuilder / MultiStreamBuilder channel sets and the pre-network outcome of init = the first poll of "
+              "try_join_all, CORRECTED after the sub-check review: with at most 30 futures the first future in order that FAILS WHEN FIRST POLLED decides, "
+              "also behind calls that went to the network (builder_init_first_pass_error, an iff; later_synchronous_failure_decides; "
+              "later_failure_witness = the review's input, run on the real init), the network only if none fails (builder_init_first_pass_network); above "
+              "30 the first call alone decides (builder_init_big; try_join_all_boundary_witness); the same one level up (multi_init_first_pass_error, "
+              "multi_init_ok_iff, multi_later_failure_witness); builder_init_decided_by_first_call / multi_init_decided_by_first_nonempty_builder keep their "
+              "names with the corrected statement (IF the first call / first non-empty builder fails before the network it decides). ORDER: the sort keys "
+              "render the derived Ord (sort_key_is_tuple_order); asset names order as numbers below 1000 and as strings from 1000 on "
+              "(asset_names_below_1000_order_as_numbers, asset_name_1000_sorts_before_999). generate_indexed_market_data_subscription_batches covers every instrument x kind combination once "
               "and validates none, = one batch per exchange in index order for the stable sort; index_market_data_subscription_batches only attaches "
               "keys (first match), with the two error cases; Map::from_iter / find / find_mut; display_subscriptions_without_exchange ignores the "
               "exchange. The model is tied to the code by running the same ops through the real functions on every run.")
 LEVEL_NOTE = ("Trusted: Lean kernel (axioms propext/Classical.choice/Quot.sound only); the hand-written model tied by sampled correspondence (the whole tables on "
               "every run; 500 quick / 12 000 random + 343 exhaustive cases thorough); harness and driver; the part of DynamicStreams::init behind the network "
-              "is replicated in the harness, not driven (grouping expression, Channels loop) or read from the source text (match arms).")
+              "is replicated in the harness, not driven (grouping expression, Channels loop) or read from the source text (match arms). ORACLE: the spec "
+              "mode answers from the README table (`docTable`) and from functions written separately from the model (the set of a batch by insertion under a "
+              "field-by-field comparison of exchange / names as strings / kind, the groups as filters, try_join_all over documented call outcomes, "
+              "`specPresent`, `specGenerate`, `specIndexable`): keys `iksk*`, `sikk`, `res` of vdyn / vsubs / init / sbinit / minit, `vstat`, `subs`, `grp`, `chan`, "
+              "`nb`, `gen`, `fam` / `r` of ds / sel / selall / all, `size` / `r` of map / find / findmut. CORRESPONDENCE-ONLY (the spec is silent, the documentation "
+              "has no second source; a change there is caught as a model disagreement, not as an oracle failure): `arms` / `fallback`, `kind*` / `ord`, `out` of "
+              "disp / dsub, `n` / `ins` of idx, the attached key in the `b` lines of index, every `msg`, the `real ..` line of init, `ids` of static, `res` of "
+              "empty, `ik<e>` for the 27 exchange ids without a connector and the three Gateio rows where "
+              "the static validate contradicts the table. Definitional / bookkeeping theorems (not results): first_poll_of_call, builder_tracks_calls' "
+              "futures clause, multi_channels_are_the_union's third conjunct, display_ignores_exchange, subkind_table.")
